@@ -107,7 +107,8 @@ fn object_method(a: &[String]) -> String {
     m1.insert("n".to_string(), method(4, 0));
     let mut state = plain_state();
     state.heap = Heap::from(vec![HeapObject::new_object(parent, IndexMap::new(), m0),
-                                 HeapObject::new_object(Pointer::Reference(HeapIndex::from(0usize)), IndexMap::new(), m1)]);
+                                 HeapObject::new_object(Pointer::Reference(HeapIndex::from(0usize)), IndexMap::new(), m1),
+                                 HeapObject::from_pointers(vec![Pointer::Integer(10), Pointer::Integer(20)])]);
     state.operand_stack.push(Pointer::Reference(HeapIndex::from(recv)));
     for v in args.iter() { state.operand_stack.push(*v); }
     let r = eval_call_method(&program, &mut state, &ConstantPoolIndex::new(0), &Arity::new(args.len() as u8 + 1));
@@ -170,7 +171,7 @@ fn object(a: &[String]) -> String {
     let nslots: usize = a[0].parse().unwrap();
     let with_method = a[1] == "1";
     let index: u16 = a[2].parse().unwrap();
-    let names = ["x", "y"];
+    let names = ["y", "x"];
     let nmembers = nslots + if with_method { 1 } else { 0 };
     let first_name = (1 + nmembers) as u16;
     let mut constants = vec![ProgramObject::Class((1..=nmembers as u16).map(ConstantPoolIndex::new).collect())];
@@ -197,6 +198,49 @@ fn object(a: &[String]) -> String {
                 _ => "OK but no object".to_string(),
             }
         }
+    }
+}
+
+/// vmstep object-size <field name> <field name> <method name>: the cumulative heap size after creating one object of that class
+fn object_size(a: &[String]) -> String {
+    let constants = vec![ProgramObject::Class(vec![ConstantPoolIndex::new(1), ConstantPoolIndex::new(2), ConstantPoolIndex::new(3)]),
+                         ProgramObject::Slot { name: ConstantPoolIndex::new(4) }, ProgramObject::Slot { name: ConstantPoolIndex::new(5) },
+                         ProgramObject::Method { name: ConstantPoolIndex::new(6), parameters: Arity::new(2), locals: Size::new(0), code: AddressRange::new(Address::from_u32(3), 1) },
+                         ProgramObject::String(a[0].clone()), ProgramObject::String(a[1].clone()), ProgramObject::String(a[2].clone())];
+    let program = prog(filler_code(6), constants);
+    let mut state = plain_state();
+    for _ in 0..3 { state.operand_stack.push(Pointer::Null); }
+    match eval_object(&program, &mut state, &ConstantPoolIndex::new(0)) {
+        Err(_) => "ERR".to_string(),
+        Ok(()) => format!("SIZE {}", state.heap.verif_size()),
+    }
+}
+
+/// vmstep print <format utf-8 hex> <e0> <e1> <f0> <f1> <p1> <argument>*
+/// heap: #0 array [e0, e1]; #1 object {x1: f0, x: f1} with parent p1; #2 object {} with parent #1; #3 empty array; #4 array [ref #0]
+fn print_step(a: &[String]) -> String {
+    use indexmap::IndexMap;
+    let format = unhex(&a[0]);
+    let (e0, e1, f0, f1, p1) = (parse(&a[1]), parse(&a[2]), parse(&a[3]), parse(&a[4]), parse(&a[5]));
+    let args: Vec<Pointer> = a[6..].iter().map(|s| parse(s)).collect();
+    let program = prog(filler_code(6), vec![ProgramObject::String(format), ProgramObject::Integer(1)]);
+    let mut fields = IndexMap::new();
+    fields.insert("x1".to_string(), f0);
+    fields.insert("x".to_string(), f1);
+    let mut state = plain_state();
+    state.heap = Heap::from(vec![HeapObject::from_pointers(vec![e0, e1]),
+                                 HeapObject::new_object(p1, fields, IndexMap::new()),
+                                 HeapObject::new_object(Pointer::Reference(HeapIndex::from(1usize)), IndexMap::new(), IndexMap::new()),
+                                 HeapObject::from_pointers(vec![]),
+                                 HeapObject::from_pointers(vec![Pointer::Reference(HeapIndex::from(0usize))])]);
+    state.operand_stack.push(Pointer::Null);
+    for v in args.iter() { state.operand_stack.push(*v); }
+    let mut out = String::new();
+    let r = eval_print(&program, &mut state, &mut out, &ConstantPoolIndex::new(0), &Arity::new(args.len() as u8));
+    let hex: String = out.bytes().map(|b| format!("{:02x}", b)).collect();
+    match r {
+        Ok(()) => format!("OK out={}", hex),
+        Err(_) => format!("ERR out={}", hex),
     }
 }
 
@@ -235,6 +279,8 @@ fn main() {
         "object-method" => object_method(&rest),
         "array" => array(&rest),
         "object" => object(&rest),
+        "object-size" => object_size(&rest),
+        "print" => print_step(&rest),
         "get-field" => field_step(false, &rest),
         "set-field" => field_step(true, &rest),
         other => format!("unknown kernel {}", other),
